@@ -14,6 +14,15 @@ from .specs import forall_range
 T = ('C03', 'C01', 'C02', 'C05', 'C06', 'C08')
 
 
+class Region:
+    """a substream over bytes [start, start+n) of a buffer, positioned at 0, whose tell() adds `base` (C08)"""
+    model = 'offsets'
+
+    def __init__(self, buf, start, n, base):
+        self.buf = streams.shift(buf, start)
+        self.len, self.pos, self.base, self.offset = n, t.ZERO, base, base
+
+
 class Sub:
     """interface function applications for one sub-construct call at a given stream / heap state"""
 
@@ -24,7 +33,10 @@ class Sub:
         c = ctx if ctx is not None else view.obj('context').addr
         if kind == 'parse':
             o = o if o is not None else view.obj('stream')
-            a = (sc.ident, o.buf, o.len, o.pos if pos is None else pos, H, D, c)
+            base = o.offset if o.model == 'offsets' else t.ZERO
+            if isinstance(o, Region):
+                base = o.base
+            a = (sc.ident, o.buf, o.len, o.pos if pos is None else pos, base, H, D, c)
             self.ok = t.app('P_ok', t.BOOL, *a)
             self.val = t.app('P_val', t.VAL, *a)
             self.end = t.app('P_end', t.INT, *a)
@@ -325,3 +337,219 @@ fcontract('RawCopy', '_parse', [
     Case('ok', 'return', lambda pre: Sub(pre, 'subcon').ok, ensures=_rawcopy_parse_ok, rkind=rk_dyn, modifies=['stream']),
     Case('inner-fails', 'raise', lambda pre: t.not_(Sub(pre, 'subcon').ok), ensures=generic_raise, modifies=['stream']),
 ], tags=('C14', 'C08', 'C09'))
+
+
+# ================================================================================================ BytesIOWithOffsets (C08)
+# The real subclass of io.BytesIO is verified against the abstract view used everywhere else ('offsets' stream model):
+# tell() = inner position + parent offset;  seek(o, 0) positions at absolute o;  other whences behave like BytesIO.
+def bwo_setup(eng, st, node, stream_model):
+    ref = streams.symbolic_stream(eng, st, 'self', 'bytesio')
+    o = st.get(ref)
+    off = fresh('parent_stream_offset', t.INT)
+    st.put(ref, o.replace(extra={'parent_stream_offset': VInt(off), 'parent_stream': NONE, '__class': 'BytesIOWithOffsets'}))
+    args = {}
+    for a in node.args.args[1:]:
+        args[a.arg] = VInt(fresh(a.arg, t.INT))
+    return ref, args
+
+
+def _bwo(view):
+    return view.st.get(view.self)
+
+
+def _bwo_off(view):
+    return _bwo(view).extra['parent_stream_offset'].t
+
+
+BWO = 'construct.core:BytesIOWithOffsets'
+register(FnContract(BWO + '.tell', setup=bwo_setup, tags=('C08',), cases=[
+    Case('ok', 'return', lambda pre: t.TRUE, rkind=rk_dyn,
+         ensures=lambda pre, post: [('tell-is-inner-position-plus-parent-offset', t.eq(result_int(post)[0], t.add(_bwo(pre).pos, _bwo_off(pre))), ('C08',)),
+                                    ('position-unchanged', t.eq(_bwo(post).pos, _bwo(pre).pos), ('C08',))])]))
+
+
+def _bwo_seek_target(pre):
+    o = _bwo(pre)
+    off, wh = pre.int('offset'), pre.int('whence')
+    return t.ite(t.eq(wh, t.ZERO), t.sub(off, _bwo_off(pre)), t.ite(t.eq(wh, t.ONE), t.imax(t.add(o.pos, off), t.ZERO), t.imax(t.add(o.len, off), t.ZERO)))
+
+
+def _bwo_seek_ok(pre):
+    off, wh = pre.int('offset'), pre.int('whence')
+    return t.or_(t.and_(t.eq(wh, t.ZERO), t.ge(t.sub(off, _bwo_off(pre)), t.ZERO)), t.eq(wh, t.ONE), t.eq(wh, I(2)))
+
+
+register(FnContract(BWO + '.seek', setup=bwo_setup, tags=('C08',), cases=[
+    Case('ok', 'return', _bwo_seek_ok, rkind=rk_dyn,
+         ensures=lambda pre, post: [('absolute-seek-subtracts-the-parent-offset', t.eq(_bwo(post).pos, _bwo_seek_target(pre)), ('C08',)),
+                                    ('returns-the-new-absolute-position', t.eq(result_int(post)[0], t.add(_bwo_seek_target(pre), _bwo_off(pre))), ('C08',)),
+                                    ('buffer-unchanged', t.and_(t.eq(_bwo(post).buf, _bwo(pre).buf), t.eq(_bwo(post).len, _bwo(pre).len)), ('C08',))]),
+    Case('invalid', 'raise', lambda pre: t.not_(_bwo_seek_ok(pre)), exc='ValueError')]))
+
+
+# ------------------------------------------------------------------------------------------------ from_reading (real body vs the model used at call sites)
+def fr_setup(eng, st, node, stream_model):
+    return None, {'stream': streams.symbolic_stream(eng, st, 'stream', stream_model), 'length': VInt(fresh('length', t.INT)), 'path': VStr(fresh('path', t.STR))}
+
+
+def _fr_ok(pre):
+    o = pre.obj('stream')
+    return t.and_(t.ge(pre.int('length'), t.ZERO), t.le(pre.int('length'), _avail(o)))
+
+
+def _fr_ensures(pre, post):
+    o, o2 = pre.obj('stream'), post.obj('stream')
+    n = pre.int('length')
+    r = post.st.get(post.result)
+    base = o.offset if o.model == 'offsets' else t.ZERO
+    i = t.var('i!', t.INT)
+    return [('substream-holds-exactly-the-next-length-bytes', t.and_(t.eq(r.len, n), t.eq(r.pos, t.ZERO),
+                                                                  forall_range(i, t.ZERO, n, t.eq(t.select(r.buf, i), t.select(o.buf, t.add(o.pos, i))), [[t.select(r.buf, i)]])), ('C08',)),
+            ('substream-tell-starts-at-the-absolute-outer-position', t.eq(r.offset, t.add(o.pos, base)), ('C08',)),
+            ('outer-stream-stands-at-region-end', t.eq(o2.pos, t.add(o.pos, n)), ('C08',)),
+            ('outer-buffer-unchanged', t.and_(t.eq(o2.buf, o.buf), t.eq(o2.len, o.len)), ('C08', 'C17'))]
+
+
+from .streams import FromReading  # noqa
+from pyvc import contract as _contract
+_fr = _contract.REGISTRY['construct.core:BytesIOWithOffsets.from_reading']
+_fr.setup = fr_setup
+_fr.stream_models = ('bytesio', 'offsets')
+_fr.cases = [Case('ok', 'return', _fr_ok, ensures=_fr_ensures, rkind=rk_dyn, modifies=['stream']),
+             Case('short', 'raise', lambda pre: t.not_(_fr_ok(pre)), exc='StreamError', path='path', modifies=['stream'])]
+_fr.tags = ('C08', 'C06', 'C18')
+
+
+# ================================================================================================ FixedSized / Prefixed / OffsettedEnd (C08)
+def _abs_base(o):
+    return o.offset if o.model == 'offsets' else t.ZERO
+
+
+def _fixed_region(pre, start=None, n=None):
+    o = S_(pre)
+    start = o.pos if start is None else start
+    return Region(o.buf, start, n, t.add(start, _abs_base(o)))
+
+
+def _fs_guard(pre):
+    o = S_(pre)
+    L = _param_int(pre, 'length')
+    inner = Sub(pre, 'subcon', o=_fixed_region(pre, n=L))
+    return t.and_(t.ge(L, t.ZERO), t.le(L, _avail(o)), inner.ok)
+
+
+def _fs_parse_ok(pre, post):
+    o, o2 = S_(pre), post.obj('stream')
+    L = _param_int(pre, 'length')
+    inner = Sub(pre, 'subcon', o=_fixed_region(pre, n=L))
+    return [('inner-construct-sees-exactly-the-region-and-its-value-is-returned', result_is(post, inner.val), ('C08', 'C03')),
+            ('outer-stream-at-region-end-whatever-the-inner-construct-consumed', t.eq(o2.pos, t.add(o.pos, L)), ('C08', 'C05', 'C03')),
+            ('buffer-unchanged', buffer_same(pre, post), ('C17', 'C08'))]
+
+
+def _fs_bad(pre, post):
+    o = S_(pre)
+    L = _param_int(pre, 'length')
+    return [('region-cut-short-is-StreamError', t.implies(t.and_(t.ge(L, t.ZERO), t.gt(L, _avail(o))), stream_error(post)), ('C06', 'C08'))] + generic_raise(pre, post)
+
+
+fcontract('FixedSized', '_parse', [
+    Case('ok', 'return', _fs_guard, ensures=_fs_parse_ok, rkind=rk_dyn, modifies=['stream']),
+    Case('rejects', 'raise', lambda pre: t.not_(_fs_guard(pre)), ensures=_fs_bad, modifies=['stream']),
+], tags=T)
+
+
+class Empty:
+    """a fresh, empty io.BytesIO (the stream2 of delimiting builders)"""
+    model = 'bytesio'
+    buf, len, pos, offset = t.const_arr(t.ZERO), t.ZERO, t.ZERO, None
+
+
+def _fs_build_guard(pre):
+    L = _param_int(pre, 'length')
+    s = Sub(pre, 'subcon', o=Empty, obj=pre['obj'].t, kind='build')
+    return t.and_(t.ge(L, t.ZERO), s.ok, t.le(s.len, L))
+
+
+def _fs_build_ok(pre, post):
+    o, o2 = S_(pre), post.obj('stream')
+    L = _param_int(pre, 'length')
+    s = Sub(pre, 'subcon', o=Empty, obj=pre['obj'].t, kind='build')
+    return [('advances-exactly-length', t.eq(o2.pos, t.add(o.pos, L)), ('C05', 'C03', 'C08')),
+            _written(o, o2, L, lambda i: t.ite(t.lt(i, s.len), t.select(s.bytes, i), t.ZERO), 'inner-bytes-then-zero-padding'),
+            ('returns-inner-build-value', result_is(post, s.ret))]
+
+
+fcontract('FixedSized', '_build', [
+    Case('ok', 'return', _fs_build_guard, ensures=_fs_build_ok, rkind=rk_dyn, modifies=['stream']),
+    Case('rejects', 'raise', lambda pre: t.not_(_fs_build_guard(pre)), ensures=generic_raise, modifies=['stream']),
+], tags=T)
+
+fcontract('FixedSized', '_sizeof', [
+    Case('ok', 'return', lambda pre: t.ge(_param_int(pre, 'length'), t.ZERO),
+         ensures=lambda pre, post: [('size-is-length', t.eq(result_int(post)[0], _param_int(pre, 'length')), ('C05',))], rkind=rk_dyn),
+    Case('negative', 'raise', lambda pre: t.lt(_param_int(pre, 'length'), t.ZERO)),
+], tags=('C05',))
+
+
+# ------------------------------------------------------------------------------------------------ Prefixed
+def _pf_parts(pre):
+    """(length-field outcome, payload length, payload start, inner outcome on the payload region)"""
+    o = S_(pre)
+    lf = Sub(pre, 'lengthfield')
+    incl = pre.eng.truth(pre.self.fields['includelength'], pre.st)
+    z = Sub(pre, 'lengthfield', heap=(lf.H, lf.D), kind='sizeof')
+    n = t.sub(t.app('toint', t.INT, lf.val), t.ite(incl, z.val, t.ZERO))
+    region = Region(o.buf, lf.end, n, t.add(lf.end, _abs_base(o)))
+    inner = Sub(pre, 'subcon', o=region, heap=(lf.H, lf.D))
+    return lf, incl, z, n, inner
+
+
+def _pf_guard(pre):
+    o = S_(pre)
+    lf, incl, z, n, inner = _pf_parts(pre)
+    return t.and_(lf.ok, t.implies(incl, z.ok), t.ge(n, t.ZERO), t.le(t.add(lf.end, n), t.imax(o.len, lf.end)), inner.ok)
+
+
+def _pf_parse_ok(pre, post):
+    o, o2 = S_(pre), post.obj('stream')
+    lf, incl, z, n, inner = _pf_parts(pre)
+    return [('payload-region-is-exactly-the-prefixed-length-and-the-inner-value-is-returned', result_is(post, inner.val), ('C08', 'C03')),
+            ('outer-stream-at-end-of-payload-whatever-the-inner-construct-consumed', t.eq(o2.pos, t.add(lf.end, n)), ('C08', 'C03', 'C05')),
+            ('buffer-unchanged', buffer_same(pre, post), ('C17', 'C08'))]
+
+
+fcontract('Prefixed', '_parse', [
+    Case('ok', 'return', _pf_guard, ensures=_pf_parse_ok, rkind=rk_dyn, modifies=['stream']),
+    Case('rejects', 'raise', lambda pre: t.not_(_pf_guard(pre)), ensures=generic_raise, modifies=['stream']),
+], tags=T)
+
+
+def _pf_build_parts(pre):
+    o = S_(pre)
+    s = Sub(pre, 'subcon', o=Empty, obj=pre['obj'].t, kind='build')
+    incl = pre.eng.truth(pre.self.fields['includelength'], pre.st)
+    z = Sub(pre, 'lengthfield', heap=(s.H, s.D), kind='sizeof')
+    total = t.add(s.len, t.ite(incl, z.val, t.ZERO))
+    lf = Sub(pre, 'lengthfield', heap=(s.H, s.D), obj=t.app('VInt', t.VAL, total), kind='build')
+    return s, incl, z, total, lf
+
+
+def _pf_build_guard(pre):
+    s, incl, z, total, lf = _pf_build_parts(pre)
+    return t.and_(s.ok, t.implies(incl, z.ok), lf.ok)
+
+
+def _pf_build_ok(pre, post):
+    o, o2 = S_(pre), post.obj('stream')
+    s, incl, z, total, lf = _pf_build_parts(pre)
+    n = t.add(lf.len, s.len)
+    return [('advances-by-prefix-plus-payload', t.eq(o2.pos, t.add(o.pos, n)), ('C03', 'C05')),
+            _written(o, o2, n, lambda i: t.ite(t.lt(i, lf.len), t.select(lf.bytes, i), t.select(s.bytes, t.sub(i, lf.len))), 'length-prefix-then-payload'),
+            ('returns-inner-build-value', result_is(post, s.ret))]
+
+
+fcontract('Prefixed', '_build', [
+    Case('ok', 'return', _pf_build_guard, ensures=_pf_build_ok, rkind=rk_dyn, modifies=['stream']),
+    Case('rejects', 'raise', lambda pre: t.not_(_pf_build_guard(pre)), ensures=generic_raise, modifies=['stream']),
+], tags=T)
